@@ -33,6 +33,7 @@ import (
 	"github.com/tochemey/goakt/v4/errors"
 	"github.com/tochemey/goakt/v4/internal/internalpb"
 	"github.com/tochemey/goakt/v4/internal/remoteclient"
+	"github.com/tochemey/goakt/v4/internal/verifhook"
 	"github.com/tochemey/goakt/v4/log"
 	sup "github.com/tochemey/goakt/v4/supervisor"
 )
@@ -146,6 +147,7 @@ func (r *relocator) startWorker(ctx *ReceiveContext, peerState *internalpb.PeerS
 	}
 
 	ctx.Watch(worker)
+	verifhook.At("reloc.worker.spawn", address, int64(r.sequence), 0)
 	r.workers[name] = workerJob{address: address, peerState: peerState}
 	ctx.Tell(worker, &internalpb.Rebalance{PeerState: peerState})
 }
@@ -184,6 +186,7 @@ func (r *relocator) handleTerminated(ctx *ReceiveContext, msg *Terminated) {
 func (r *relocator) abortRelocation(ctx *ReceiveContext, address string, peerState *internalpb.PeerState, err error) {
 	system := r.pid.ActorSystem()
 	rctx := context.WithoutCancel(ctx.Context())
+	verifhook.At("reloc.abort", address, 0, 0)
 
 	// An aborted rebalance (worker spawn failure or abnormal worker death)
 	// relocates nothing. Apply the shared abort accounting so this path agrees
